@@ -120,6 +120,7 @@ class App(object):
         self.counts = {}
         self.attempt = -1
         self.ws = None
+        self.sock_fn = None
 
     def react(self, ev):
         if ev.name == 'connecting':
@@ -161,7 +162,8 @@ class App(object):
         rec.op = kind
         rec.spec = op
         rec.at_event = ev.index if ev is not None else None
-        sock = w.socks[-1] if w.socks else None
+        sock = self.sock_fn() if self.sock_fn is not None else (
+            w.socks[-1] if w.socks else None)
         rec.sock = sock.index if sock is not None else None
         before = len(sock.out_bytes) if sock is not None else 0
         nsend = sock.n_sendall if sock is not None else 0
@@ -562,6 +564,126 @@ def _tee_connect(ws, trace):
                 yield ev
         return gen()
     ws.connect = connect
+
+
+def run_multi(scen):
+    """Several WebSocket objects alive at the same time in one world, their
+    event loops advanced in an interleaved order by one consumer thread
+    (scen['order']: cyclic list of object indices; default round robin).
+
+    scen['objects'] = [{'url', 'ws', 'connect', 'app'}, ...]
+    scen['conns_by_host'] = {host: [conn spec, ...]}
+    Returns one Trace per object (they share the World)."""
+    W.install()
+    _RUNS[0] += 1
+    if _RUNS[0] % 64 == 0:
+        W.set_current(None)
+        gc.collect()
+    w = W.World(scen)
+    W.set_current(w)
+    objs = scen['objects']
+    traces, gens, apps = [], [], []
+    for o in objs:
+        tr = Trace()
+        tr.world = w
+        ws = _make_ws(o)
+        tr.ws = ws
+        tr.host = ws.host
+        app = App(o.get('app'), tr, w)
+        app.ws = ws
+
+        def sock_fn(ws=ws):
+            sess = ws.state.session
+            sk = getattr(sess, '_sock', None) if sess is not None else None
+            return getattr(sk, '_st', None)
+        app.sock_fn = sock_fn
+        traces.append(tr)
+        apps.append(app)
+        gens.append(ws.connect(**(o.get('connect') or {})))
+    order = scen.get('order') or list(range(len(objs)))
+    active = set(range(len(objs)))
+    k = 0
+    steps = 0
+    while active:
+        i = order[k % len(order)]
+        k += 1
+        if i not in active:
+            if not any(j in active for j in order):
+                break
+            continue
+        steps += 1
+        tr = traces[i]
+        if steps > scen.get('max_events', 20000):
+            tr.hang = 'event budget exhausted'
+            break
+        try:
+            event = next(gens[i])
+        except StopIteration:
+            tr.finished = True
+            active.discard(i)
+            continue
+        except W.SimHang as e:
+            tr.hang = str(e)
+            active.discard(i)
+            continue
+        except Exception as e:
+            tr.escaped = (type(e).__name__, str(e)[:200])
+            active.discard(i)
+            continue
+        rec = EvRec()
+        rec.seq = w.next_seq()
+        rec.t = w.now
+        rec.name = event.name
+        rec.obj = event
+        rec.snap = snapshot(event)
+        rec.index = len(tr.events)
+        rec.conn = w.conn_index
+        st = apps[i].sock_fn()
+        rec.wire_len = len(st.out_bytes) if st is not None else 0
+        rec.open_socks = sum(1 for s_ in w.socks if not s_.closed)
+        tr.events.append(rec)
+        apps[i].react(rec)
+    for tr in traces:
+        tr.world = WorldView(w, tr.host)
+    return traces
+
+
+class WorldView(object):
+    """The shared World as seen from one of several WebSocket objects:
+    `socks` lists only the sockets that object connected."""
+
+    def __init__(self, w, host):
+        self._w = w
+        self._host = host
+
+    @property
+    def socks(self):
+        return [s for s in self._w.socks
+                if s.conn is not None and s.conn.host == self._host]
+
+    def __getattr__(self, name):
+        return getattr(self._w, name)
+
+
+def pair_scenario(sc_a, sc_b, order=None):
+    """Combine two single-connection scenarios into one multi-object
+    scenario (hosts a.test / b.test)."""
+    objs = []
+    by_host = {}
+    for host, sc in (('a.test', sc_a), ('b.test', sc_b)):
+        url = sc.get('url', 'ws://example.test/')
+        scheme, rest = url.split('://', 1)
+        path = '/' + rest.split('/', 1)[1] if '/' in rest else '/'
+        objs.append({'url': '%s://%s%s' % (scheme, host, path),
+                     'ws': sc.get('ws'), 'connect': sc.get('connect'),
+                     'app': sc.get('app')})
+        by_host[host] = sc['conns']
+    out = {'objects': objs, 'conns_by_host': by_host,
+           'epoch': sc_a.get('epoch', 0),
+           'max_polls': 40000, 'max_events': 40000}
+    if order:
+        out['order'] = order
+    return out
 
 
 def collect():
